@@ -45,7 +45,11 @@ func discharge(fr *FuncResult, workdir string, perOblS int, sem chan struct{}, t
 		return
 	}
 	base := filepath.Join(workdir, sanitize(fr.Key))
-	script, obls := fr.Em.script(perOblS * 1000)
+	incrMs := perOblS * 1000
+	if incrMs > 3000 {
+		incrMs = 3000
+	}
+	script, obls := fr.Em.script(incrMs)
 	file := base + ".smt2"
 	os.WriteFile(file, []byte(script), 0o644)
 	sem <- struct{}{}
